@@ -158,3 +158,144 @@ Section Sites.
     - intros area area' Harea. apply (ScaleAbsProofs.rel_grid_resolve k Hk); [exact Harea|apply rel_gabs_style; exact Hs0].
   Qed.
 End Sites.
+
+(* ------------------------------------------------------------------------------------------------ k = 1: reflexivity, transitivity *)
+Lemma sfn_rel1_refl f : sfn_rel 1 f f.
+Proof. destruct f; cbn; first [exact I|apply s1_refl|apply dl_refl]. Qed.
+Lemma nrt_rel1_refl t : nrt_rel 1 t t.
+Proof. split; apply sfn_rel1_refl. Qed.
+Lemma Forall2_refl {X} (R : X -> X -> Prop) l : (forall x, R x x) -> Forall2 R l l.
+Proof. intros H. induction l; constructor; auto. Qed.
+Lemma tsf_rel1_refl e : tsf_rel 1 e e.
+Proof. destruct e; cbn; [apply nrt_rel1_refl|split; [reflexivity|apply Forall2_refl; apply nrt_rel1_refl]]. Qed.
+Lemma gstyle_rel1_refl s : gstyle_rel 1 s s.
+Proof.
+  unfold gstyle_rel. repeat match goal with |- _ /\ _ => split end; try reflexivity; try apply style_rel1_refl;
+    first [apply rc_refl; apply lpa1_refl | apply sz_refl; apply lp1_refl | apply Forall2_refl; apply tsf_rel1_refl
+          | apply Forall2_refl; apply nrt_rel1_refl].
+Qed.
+Lemma triple_rel1_trans a b c : triple_rel 1 a b -> triple_rel 1 b c -> triple_rel 1 a c.
+Proof.
+  intros (A1 & A2 & A3) (B1 & B2 & B3). repeat split; eapply o1_trans; first [apply A1|apply A2|apply A3|apply B1|apply B2|apply B3].
+Qed.
+
+(* ------------------------------------------------------------------------------------------------ the sites of the rewritten style *)
+Section Invariance.
+  Notation L := (sc 1).
+  Notation O := (op_rel (sc 1)).
+  Variable s : GStyle XQ.
+  Hypothesis El : g_eligibleb s = true.
+  Notation tb := (g_to_border_box s).
+  Notation c := (gs_core s).
+
+  Lemma gel_core : eligible c.
+  Proof. unfold g_eligibleb in El. apply andb_prop in El. exact (proj1 El). Qed.
+  Lemma gel_not_replaced : gs_replaced s = false.
+  Proof. unfold g_eligibleb in El. apply andb_prop in El. destruct (gs_replaced s); [destruct El; discriminate|reflexivity]. Qed.
+
+  Ltac core_facts := destruct (eligible_parts c gel_core) as (Ebs & Ep & Eb & Ear & Esz & Emn & Emx).
+
+  (* the resolved (size, min_size, max_size): the idiom, at related contexts *)
+  Lemma inv_bs_triple pbs pbs' ctx ctx' : sz_rel L pbs (style_pb c) -> sz_rel O ctx ctx' ->
+    triple_rel 1 (bs_triple c pbs ctx) (bs_triple (to_border_box c) pbs' ctx').
+  Proof.
+    intros Hpb Hctx. eapply triple_rel1_trans.
+    - apply (rel_bs_triple 1 Q01 c c pbs pbs ctx ctx'); [apply style_rel1_refl|apply sz_refl; apply s1_refl|exact Hctx].
+    - core_facts. unfold bs_triple, triple_rel. cbn [fst snd to_border_box box_sizing size min_size max_size aspect_ratio]. rewrite Ebs, Ear.
+      repeat split; apply (idiom_rmm _ ctx' _ _); assumption.
+  Qed.
+
+  Lemma inv_grid_pre i i' : fin_rel 1 i i' -> pre_rel 1 (grid_pre s i) (grid_pre tb i').
+  Proof.
+    intros Hi. fin_open Hi. core_facts. rewrite !grid_pre_shape. cbv zeta. rewrite Esizing.
+    cbn [gs_core g_to_border_box]. cbn [to_border_box padding border].
+    rewrite !(rect_lp_length_ctx (padding c) (width (gi_parent i')) (width (gi_parent i)) Ep),
+            !(rect_lp_length_ctx (border c) (width (gi_parent i')) (width (gi_parent i)) Eb).
+    apply (rel_pre_of 1 Q01); try assumption; try (apply rc_refl; apply s1_refl).
+    - apply inv_bs_triple; [|exact Hparent].
+      rewrite (rect_lp_length_ctx (padding c) (width (gi_parent i)) None Ep), (rect_lp_length_ctx (border c) (width (gi_parent i)) None Eb).
+      unfold style_pb. apply sz_refl. apply s1_refl.
+    - apply (rel_pre_gutter 1); [reflexivity|apply s1_refl].
+  Qed.
+
+  Lemma inv_item_resolved ctx ctx' : sz_rel O ctx ctx' -> triple_rel 1 (item_resolved c ctx) (item_resolved (to_border_box c) ctx').
+  Proof.
+    intros Hctx. core_facts. unfold item_resolved. apply inv_bs_triple; [|exact Hctx].
+    rewrite (rect_lp_size_ctx (padding c) ctx Ep), (rect_lp_size_ctx (border c) ctx Eb). unfold style_pb. apply sz_refl. apply s1_refl.
+  Qed.
+
+  Lemma grow_dim_definite pb (d : Dimension XQ) ctx : dim_definite (grow_dim pb d) ctx = dim_definite d ctx.
+  Proof. destruct d; reflexivity. Qed.
+  Lemma inv_dims_definite ax ctx : dims_definite (to_border_box c) ax ctx = dims_definite c ax ctx.
+  Proof.
+    unfold dims_definite. cbn [to_border_box size max_size]. unfold grow_size. destruct ax; cbn [get_ax width height]; rewrite !grow_dim_definite; reflexivity.
+  Qed.
+
+  (* the adapter to the vocabulary of the translated kernel commutes with the rewrite (as Proofs/FlexBoxSizing.v for FStyle) *)
+  Lemma ga_lpa_grow pb (d : Dimension XQ) : a_lpa (grow_dim pb d) = BoxSizingAbs.abs_grow_dim pb (a_lpa d).
+  Proof. destruct d; reflexivity. Qed.
+  Lemma ga_lp_resolve_none (d : LengthPercentage XQ) : AbsPosBase.dim_resolve_or_zero (a_lp d) None = resolve_or_zero_lp d None.
+  Proof. destruct d; reflexivity. Qed.
+  Lemma gabs_style_pb_eq : BoxSizingAbs.abs_style_pb (abs_style s) = a_size (style_pb c).
+  Proof.
+    unfold BoxSizingAbs.abs_style_pb, style_pb, abs_style, a_size, a_rect, sum_axes, horizontal_axis_sum, vertical_axis_sum, rect_add, rect_zip_map,
+      rect_resolve_or_zero_lp, rect_map, AbsPosBase.rect_sum_axes, AbsPosBase.rect_horizontal_axis_sum, AbsPosBase.rect_vertical_axis_sum,
+      AbsPosBase.rect_add, AbsPosBase.rect_map.
+    cbn [AbsPosBase.st_padding AbsPosBase.st_border AbsPosBase.r_left AbsPosBase.r_right AbsPosBase.r_top AbsPosBase.r_bottom
+         r_left r_right r_top r_bottom width height].
+    rewrite !ga_lp_resolve_none. reflexivity.
+  Qed.
+  Lemma gabs_style_tb : abs_style tb = BoxSizingAbs.abs_to_border_box (abs_style s).
+  Proof.
+    unfold BoxSizingAbs.abs_to_border_box. rewrite gabs_style_pb_eq. unfold abs_style.
+    cbn [gs_core gs_inset gs_align_self gs_justify_self g_to_border_box to_border_box
+         display Leaf.position box_sizing overflow scrollbar_width size min_size max_size aspect_ratio margin padding border].
+    unfold BoxSizingAbs.abs_grow_size, grow_size, a_size, size_map.
+    cbn [AbsPosBase.st_size AbsPosBase.st_min_size AbsPosBase.st_max_size AbsPosBase.st_inset AbsPosBase.st_margin AbsPosBase.st_padding
+         AbsPosBase.st_border AbsPosBase.st_aspect_ratio AbsPosBase.st_box_sizing AbsPosBase.st_align_self AbsPosBase.st_justify_self
+         AbsPosBase.st_position AbsPosBase.s_width AbsPosBase.s_height width height].
+    rewrite !ga_lpa_grow. reflexivity.
+  Qed.
+  Lemma gabs_style_eligible : BoxSizingAbs.abs_eligible (abs_style s).
+  Proof.
+    core_facts. unfold BoxSizingAbs.abs_eligible, BoxSizingAbs.abs_eligibleb, abs_style.
+    cbn [AbsPosBase.st_size AbsPosBase.st_min_size AbsPosBase.st_max_size AbsPosBase.st_padding AbsPosBase.st_border
+         AbsPosBase.st_aspect_ratio AbsPosBase.st_box_sizing].
+    rewrite Ebs, Ear.
+    assert (Hlen : forall d : LengthPercentage XQ, BoxSizingAbs.dim_is_length (a_lp d) = lp_is_length d) by (intros d; destruct d; reflexivity).
+    assert (Hpct : forall d : Dimension XQ, BoxSizingAbs.abs_dim_not_percent (a_lpa d) = dim_not_percent d) by (intros d; destruct d; reflexivity).
+    unfold BoxSizingAbs.abs_rect_forallb, BoxSizingAbs.abs_size_forallb, a_rect, a_size, rect_map, size_map.
+    cbn [AbsPosBase.r_left AbsPosBase.r_right AbsPosBase.r_top AbsPosBase.r_bottom AbsPosBase.s_width AbsPosBase.s_height
+         r_left r_right r_top r_bottom width height].
+    rewrite !Hlen, !Hpct.
+    unfold rect_forallb in Ep, Eb. unfold size_forallb in Esz, Emn, Emx. rewrite Ep, Eb.
+    apply andb_true_intro; split; [apply andb_true_intro; split; [apply andb_true_intro; split; [reflexivity|exact Esz]|exact Emn]|exact Emx].
+  Qed.
+End Invariance.
+
+(* ------------------------------------------------------------------------------------------------ the rewrite implies the weak relation *)
+Theorem gbb_weak s s' : gbb_rel s s' -> gstyle_wrel 1 s s'.
+Proof.
+  intros [->|[El ->]]; [apply (gwrel_of_rel 1 Q01); apply gstyle_rel1_refl|].
+  pose proof (gwrel_of_rel 1 Q01 s s (gstyle_rel1_refl s)) as W0.
+  destruct W0 as (W1 & W2 & W3 & W4 & W5 & W6 & W7 & W8 & W9 & W10 & W11 & W12 & W13 & W14 & W15 & W16 & W17 & W18 & W19 & W20 & W21 &
+                  Wpre & Wdef & Wres & Wcap & Wabs).
+  unfold gstyle_wrel. cbv zeta.
+  cbn [gs_core gs_inset gs_template_columns gs_template_rows gs_auto_columns gs_auto_rows gs_flow gs_gap gs_align_items gs_justify_items
+       gs_align_content gs_justify_content gs_row gs_column gs_align_self gs_justify_self gs_replaced g_to_border_box].
+  cbn [to_border_box display Leaf.position overflow scrollbar_width aspect_ratio margin].
+  repeat match goal with |- _ /\ _ => split end; try assumption.
+  - intros i i' Hi. apply inv_grid_pre; assumption.
+  - intros ax ctx ctx' Hctx. change (mkStyle _ _ _ _ _ _ _ _ _ _ _ _) with (to_border_box (gs_core s)). rewrite inv_dims_definite. apply Wdef. exact Hctx.
+  - intros ctx ctx' Hctx. change (mkStyle _ _ _ _ _ _ _ _ _ _ _ _) with (to_border_box (gs_core s)). apply inv_item_resolved; assumption.
+  - intros Hr. rewrite (gel_not_replaced s El) in Hr. discriminate.
+  - intros area area' Ha. eapply absin_rel1_trans; [apply Wabs; exact Ha|].
+    change (mkGStyle _ _ _ _ _ _ _ _ _ _ _ _ _ _ _ _ _) with (g_to_border_box s). rewrite (gabs_style_tb s).
+    apply absin_rel1_of_xeq. apply BoxSizingAbsProofs.grid_resolve_invariant. apply gabs_style_eligible. exact El.
+Qed.
+
+(* ------------------------------------------------------------------------------------------------ grid_pre: the two statements *)
+Theorem grid_pre_homogeneous k s s' i i' : (0 < k)%Q -> gstyle_rel k s s' -> fin_rel k i i' -> pre_rel k (grid_pre s i) (grid_pre s' i').
+Proof. intros Hk. apply rel_grid_pre. exact Hk. Qed.
+Theorem grid_pre_box_sizing_blind s s' i i' : gbb_rel s s' -> fin_rel 1 i i' -> pre_rel 1 (grid_pre s i) (grid_pre s' i').
+Proof. intros Hs Hi. destruct (gbb_weak s s' Hs) as (_ & _ & _ & _ & _ & _ & _ & _ & _ & _ & _ & _ & _ & _ & _ & _ & _ & _ & _ & _ & _ & Wpre & _). apply Wpre. exact Hi. Qed.
